@@ -385,8 +385,10 @@ def run_check(prop: Prop, tier: str, seed: int, replay: str | None = None) -> in
     for i in viol:
         c, o = items[i]
         key = prop.classify(c, o)
-        if key is not None and key in findings and findings[key]["status"] == "open":
-            known_hits.setdefault(key, dict(case=c, obs=o, count=0))["count"] += 1
+        keys = key.split("+") if key else []
+        if keys and all(k in findings and findings[k]["status"] == "open" for k in keys):
+            for k in keys:        # a case may show several listed findings at once
+                known_hits.setdefault(k, dict(case=c, obs=o, count=0))["count"] += 1
         else:
             violations.append(dict(case=c, obs=o, classified=key))
     mismatches = [dict(case=items[i][0], impl=items[i][1]) for i in mism]
